@@ -320,7 +320,85 @@ func checkValue(b *binding, o *rtl.Object, caseID string) {
 	if d := presence(o, dv.Elem()); d != "" {
 		wit["diff"] = d
 		K.Violation("optional-presence@"+b.goName, wit)
+		return
 	}
+	// the same bytes handed over in short reads (an io.Reader may return fewer bytes than asked for):
+	// the layout is a property of the byte sequence, not of how the reader cuts it
+	if len(want) > 0 {
+		cv := reflect.New(b.goType)
+		under := bytes.NewReader(append(append([]byte{}, want...), sentinel...))
+		p = mon.Guard(func() { err = ttl.Unmarshal(&chunkReader{r: under, n: len(want)}, cv.Interface()) })
+		K.Count("short_read_decodes", 1)
+		if p != nil {
+			wit["panic"] = p.Value
+			K.Violation("panic@"+p.Site+"/tl.Unmarshal(short reads)/"+b.goName, wit)
+			return
+		}
+		var back2 *rtl.Object
+		if err == nil {
+			back2, err = bind.ExtractObject(S, b.ctors[0], cv.Elem())
+		}
+		if err != nil || under.Len() != len(sentinel) || rtl.Diff(S, o, back2) != "" {
+			wit["err"], wit["unread"], wit["reader"] = fmt.Sprint(err), under.Len(), "returns 1..5 bytes per Read"
+			K.Violation("unmarshal-short-reads@"+b.goName, wit)
+			return
+		}
+	}
+	// a boxed value that starts with another 32-bit id than one of this type's schema lines is not a value of the type
+	if b.boxed && len(want) >= 4 {
+		for _, id := range foreignIDs(b, binary.LittleEndian.Uint32(want[:4])) {
+			bad := append(binary.LittleEndian.AppendUint32(nil, id), want[4:]...)
+			fv := reflect.New(b.goType)
+			p = mon.Guard(func() { err = ttl.Unmarshal(bytes.NewReader(bad), fv.Interface()) })
+			K.Count("foreign_id_decodes", 1)
+			if p != nil {
+				wit["panic"] = p.Value
+				K.Violation("panic@"+p.Site+"/tl.Unmarshal(foreign id)/"+b.goName, wit)
+				return
+			}
+			if err == nil {
+				wit["offered_id"], wit["decoded"] = fmt.Sprintf("%08x", id), mon.Trunc(fmt.Sprintf("%+v", fv.Elem().Interface()), 600)
+				K.Violation("foreign-id-accepted@"+b.goName, wit)
+				return
+			}
+		}
+	}
+}
+
+// chunkReader hands out the underlying bytes in pieces of 1..5 bytes.
+type chunkReader struct {
+	r *bytes.Reader
+	n int
+	k int
+}
+
+func (c *chunkReader) Read(p []byte) (int, error) {
+	c.k++
+	m := 1 + (c.k*7+c.n)%5
+	if m > len(p) {
+		m = len(p)
+	}
+	return c.r.Read(p[:m])
+}
+
+// foreignIDs returns ids that no constructor of b's type carries: the id of
+// another schema line and a one-bit neighbour of the right id.
+func foreignIDs(b *binding, right uint32) []uint32 {
+	own := map[uint32]bool{}
+	for _, c := range b.ctors {
+		own[c.ID] = true
+	}
+	var out []uint32
+	for _, c := range S.Constructors {
+		if !own[c.ID] && c.HasID {
+			out = append(out, c.ID)
+			break
+		}
+	}
+	if x := right ^ 1; !own[x] {
+		out = append(out, x)
+	}
+	return out
 }
 
 // presence re-checks the top-level optional pointer fields of a decoded
@@ -599,6 +677,74 @@ func sectionPrimitives() {
 	}
 }
 
+// sectionPrimitiveVectors: tl.Marshal / tl.Unmarshal on Go slices of every
+// element kind the schema language has (the generated code hands its vector
+// fields to these two functions), also through a pointer (how the generated
+// code passes optional fields).
+func sectionPrimitiveVectors() {
+	elem := func(k rtl.Kind) *rtl.Type { return &rtl.Type{Kind: k} }
+	kinds := []struct {
+		name string
+		goT  reflect.Type
+		t    rtl.Type
+	}{
+		{"[]uint32", reflect.TypeOf([]uint32(nil)), rtl.Type{Kind: rtl.KVector, Elem: elem(rtl.KInt)}},
+		{"[]bool", reflect.TypeOf([]bool(nil)), rtl.Type{Kind: rtl.KVector, Elem: elem(rtl.KBool)}},
+		{"[]string", reflect.TypeOf([]string(nil)), rtl.Type{Kind: rtl.KVector, Elem: elem(rtl.KString)}},
+		{"[][]byte", reflect.TypeOf([][]byte(nil)), rtl.Type{Kind: rtl.KVector, Elem: elem(rtl.KBytes)}},
+		{"[]tl.Int256", reflect.TypeOf([]ttl.Int256(nil)), rtl.Type{Kind: rtl.KVector, Elem: elem(rtl.KInt256)}},
+		{"[][]uint64", reflect.TypeOf([][]uint64(nil)), rtl.Type{Kind: rtl.KVector, Elem: &rtl.Type{Kind: rtl.KVector, Elem: elem(rtl.KLong)}}},
+	}
+	for i := 0; i < N(60, 1500); i++ {
+		for _, c := range kinds {
+			rng := K.Rng("prim-vec/"+c.name, i)
+			abs := S.Random(rng, c.t, &rtl.GenOpts{VecLen: func(r rtl.Rand, d int) int { return r.Intn(5) }, BytesLen: func(r rtl.Rand) int {
+				if r.Intn(2) == 0 {
+					return rtl.BoundaryLens[r.Intn(len(rtl.BoundaryLens))]
+				}
+				return r.Intn(12)
+			}})
+			want, _ := S.Encode(c.t, abs)
+			gv := reflect.New(c.goT)
+			K.Eval(fmt.Sprintf("prim-vec/%s/%d", c.name, len(abs.([]any))))
+			K.Seen("primitive_vector_kinds", c.name)
+			wit := map[string]any{"go_type": c.name, "value": valueWitness(abs)}
+			if err := bind.Populate(S, c.t, abs, gv.Elem()); err != nil {
+				herr("prim-vec: %v", err)
+				return
+			}
+			for _, how := range []string{"value", "pointer"} {
+				in := gv.Elem().Interface()
+				if how == "pointer" {
+					in = gv.Interface()
+				}
+				var got []byte
+				var err error
+				p := mon.Guard(func() { got, err = ttl.Marshal(in) })
+				if p != nil || err != nil || !bytes.Equal(got, want) {
+					wit["got"], wit["want"], wit["err"], wit["passed_as"] = mon.HexTrunc(got, 200), mon.HexTrunc(want, 200), fmt.Sprint(err, p), how
+					K.Violation("marshal-mismatch@tl.Marshal("+c.name+")", wit)
+					break
+				}
+			}
+			out := reflect.New(c.goT)
+			rd := bytes.NewReader(append(append([]byte{}, want...), sentinel...))
+			var err error
+			p := mon.Guard(func() { err = ttl.Unmarshal(rd, out.Interface()) })
+			if p != nil || err != nil || rd.Len() != len(sentinel) {
+				wit["err"], wit["unread"] = fmt.Sprint(err, p), rd.Len()
+				K.Violation("unmarshal-error@tl.Unmarshal("+c.name+")", wit)
+				continue
+			}
+			back, err := bind.Extract(S, c.t, out.Elem())
+			if err != nil || !rtl.Equal(back, abs) {
+				wit["decoded"] = mon.Trunc(fmt.Sprint(out.Elem().Interface()), 400)
+				K.Violation("unmarshal-mismatch@tl.Unmarshal("+c.name+")", wit)
+			}
+		}
+	}
+}
+
 // sectionRequestDecoder: LiteapiRequestDecoder on reference request bytes.
 func sectionRequestDecoder(bs []*binding) {
 	n := N(30, 600)
@@ -796,6 +942,18 @@ func sectionHandWritten() {
 				wit["diff"] = rtl.Diff(S, o, bo)
 				K.Violation("unmarshal-mismatch@liteclient.LiteServerSignatureSet", wit)
 			}
+			// the boxed form starts with the id of liteServer.signatureSet and with no other
+			for _, id := range []uint32{S.TypeConstructors(sigT.Name)[0].ID ^ 1, blkC.ID, accC.ID} {
+				bad := append(binary.LittleEndian.AppendUint32(nil, id), want[4:]...)
+				var v2 liteclient.LiteServerSignatureSet
+				p = mon.Guard(func() { err = ttl.Unmarshal(bytes.NewReader(bad), &v2) })
+				K.Count("foreign_id_decodes", 1)
+				if p != nil || err == nil {
+					wit["offered_id"], wit["panic"] = fmt.Sprintf("%08x", id), fmt.Sprint(p)
+					K.Violation("foreign-id-accepted@liteclient.LiteServerSignatureSet", wit)
+					break
+				}
+			}
 		}
 	}
 }
@@ -872,8 +1030,9 @@ func (ws *wireServer) serve(p *adnl.Peer) {
 			copy(qid[:], payload[4:36])
 		}
 		ans, _ := S.Encode(msgT, &rtl.Object{Ctor: "adnl.message.answer", Fields: []any{qid, e.answer}})
-		p.Send([32]byte{}, ans)
+		// report first, answer second: once the client has its answer the verdict is already in the channel
 		e.observed <- verdict
+		p.Send([32]byte{}, ans)
 	}
 }
 
@@ -924,6 +1083,11 @@ func sectionWire(bs []*binding) {
 		}
 	}
 	perFn := N(10, 340)
+	bigAns, bigReq := 0, 0
+	type special struct {
+		kind string
+		L    int
+	}
 	for _, mname := range registryMethods {
 		b := byMethod[norm(mname)]
 		if b == nil {
@@ -947,9 +1111,34 @@ func sectionWire(bs []*binding) {
 			continue
 		}
 		resT := rtl.Type{Kind: rtl.KBoxed, Name: f.Result}
-		for k := 0; k < perFn; k++ {
+		// after the ordinary cases: an answer that is a boxed value of ANOTHER type (must be refused), and for a
+		// few methods byte strings beyond 2^16 in the answer / in the request (the adnl.message.query/answer and
+		// liteServer.query envelopes are hand-written length codecs of their own)
+		specials := []special{{"foreign", 0}}
+		if rc := S.TypeConstructors(f.Result); len(rc) == 1 && hasDirectBytes(rc[0]) && bigAns < N(2, 5) {
+			bigAns++
+			for _, L := range []int{65535, 65536, 200000} {
+				specials = append(specials, special{"big-answer", L})
+			}
+		}
+		if hasDirectBytes(f) && bigReq < N(1, 3) {
+			bigReq++
+			for _, L := range []int{65536, 200000} {
+				specials = append(specials, special{"big-request", L})
+			}
+		}
+		for k := 0; k < perFn+len(specials); k++ {
+			sp := special{kind: "normal"}
+			if k >= perFn {
+				sp = specials[k-perFn]
+			}
 			rng := K.Rng("wire/"+f.Name, k)
+			firstArg := true
 			args := S.RandomObject(rng, f, &rtl.GenOpts{BytesLen: func(r rtl.Rand) int {
+				if sp.kind == "big-request" && firstArg {
+					firstArg = false
+					return sp.L
+				}
 				if r.Intn(3) == 0 {
 					return rtl.BoundaryLens[r.Intn(len(rtl.BoundaryLens))]
 				}
@@ -960,12 +1149,34 @@ func sectionWire(bs []*binding) {
 				herr("reference request encoding failed: %v", err)
 				return
 			}
-			sendErr := k%5 == 4
+			sendErr := k%5 == 4 && sp.kind == "normal"
 			var resp *rtl.Object
-			if sendErr {
+			switch {
+			case sendErr:
 				resp = S.RandomObject(rng, errC, nil)
-			} else {
+			case sp.kind == "foreign":
+				at := rng.Intn(len(S.Constructors))
+				for i := range S.Constructors {
+					c := S.Constructors[(at+i)%len(S.Constructors)]
+					if c.Result != f.Result && c != errC && c.HasID {
+						resp = S.RandomObject(rng, c, &rtl.GenOpts{Ctor: c.Name})
+						break
+					}
+				}
+			case sp.kind == "big-answer":
+				firstRes := true
+				resp = S.Random(rng, resT, &rtl.GenOpts{BytesLen: func(r rtl.Rand) int {
+					if firstRes {
+						firstRes = false
+						return sp.L
+					}
+					return r.Intn(16)
+				}}).(*rtl.Object)
+			default:
 				resp = S.Random(rng, resT, nil).(*rtl.Object)
+			}
+			if resp == nil {
+				continue
 			}
 			ansBytes, _ := S.Encode(rtl.Type{Kind: rtl.KBoxed, Name: S.Constructor(resp.Ctor).Result}, resp)
 			e := &expectation{reqWant: reqWant, answer: ansBytes, observed: make(chan string, 1)}
@@ -992,6 +1203,10 @@ func sectionWire(bs []*binding) {
 			sb.WriteString("->")
 			shape(resp, &sb)
 			K.Eval("wire/" + sb.String())
+			if sp.kind != "normal" {
+				wit["case"] = fmt.Sprintf("%s %d", sp.kind, sp.L)
+				K.Seen("wire_special_cases", fmt.Sprintf("%s/%d", sp.kind, sp.L))
+			}
 			if p != nil {
 				wit["panic"] = p.Value
 				K.Violation("panic@"+p.Site+"/"+mname, wit)
@@ -1010,7 +1225,7 @@ func sectionWire(bs []*binding) {
 					// the transport failed (C11/C12's subject), nothing was observed about the bytes
 					K.Inconclusive("transport error on loopback: " + mon.PanicClass(callErr.Error()))
 				} else {
-					K.Violation("request-not-sent@"+mname, wit)
+					K.Inconclusive("the reference server's report did not arrive within 2 s although the call returned")
 				}
 				continue
 			}
@@ -1022,6 +1237,17 @@ func sectionWire(bs []*binding) {
 			K.Seen("methods_on_the_wire", mname)
 			if k == 0 && len(f.Fields) > 1 {
 				K.Sample(map[string]any{"kind": "wire", "method": mname, "args": valueWitness(args), "query_seen_by_server": mon.HexTrunc(reqWant, 96), "answer": resp.Ctor})
+			}
+			if sp.kind == "foreign" {
+				// neither a value of the result type nor liteServer.error: the id in front of the answer names another line
+				K.Count("foreign_answers", 1)
+				if callErr != nil && strings.Contains(callErr.Error(), "request timeout") {
+					K.Inconclusive("request timed out on loopback")
+				} else if _, isLS := callErr.(liteclient.LiteServerErrorC); callErr == nil || isLS {
+					wit["returned"], wit["client_error"] = mon.Trunc(fmt.Sprintf("%+v", outs[0].Interface()), 600), fmt.Sprint(callErr)
+					K.Violation("foreign-answer-accepted@"+mname, wit)
+				}
+				continue
 			}
 			if sendErr {
 				le, ok := callErr.(liteclient.LiteServerErrorC)
@@ -1084,6 +1310,11 @@ func sectionWire(bs []*binding) {
 			}
 			resp := S.RandomObject(rng, hdrC, nil)
 			ans, _ := S.EncodeBoxed(hdrC, resp)
+			sendErr := k%4 == 3
+			if sendErr {
+				resp = S.RandomObject(rng, errC, nil)
+				ans, _ = S.EncodeBoxed(errC, resp)
+			}
 			e := &expectation{reqWant: append(pre, req...), answer: ans, observed: make(chan string, 1)}
 			ws.mu.Lock()
 			ws.cur = e
@@ -1108,6 +1339,22 @@ func sectionWire(bs []*binding) {
 				K.Inconclusive("WaitMasterchainBlock: server saw no query")
 				continue
 			}
+			if err2 != nil && strings.Contains(err2.Error(), "request timeout") {
+				K.Inconclusive("request timed out on loopback")
+				continue
+			}
+			if sendErr {
+				le, ok := err2.(liteclient.LiteServerErrorC)
+				var back *rtl.Object
+				if ok {
+					back, _ = bind.ExtractObject(S, errC, reflect.ValueOf(le))
+				}
+				if !ok || back == nil || rtl.Diff(S, resp, back) != "" {
+					wit["client_error"], wit["answer"] = fmt.Sprintf("%T %v", err2, err2), valueWitness(resp)
+					K.Violation("error-answer-not-returned@WaitMasterchainBlock", wit)
+				}
+				continue
+			}
 			if err2 != nil {
 				wit["client_error"] = err2.Error()
 				K.Violation("response-rejected@WaitMasterchainBlock", wit)
@@ -1119,6 +1366,64 @@ func sectionWire(bs []*binding) {
 				K.Violation("response-mismatch@WaitMasterchainBlock", wit)
 			}
 			K.Seen("methods_on_the_wire", "WaitMasterchainBlock")
+		}
+	}
+
+	// hand-written request: WaitMasterchainSeqno = liteServer.waitMasterchainSeqno seqno:int timeout_ms:int alone.
+	// The answer scripted here is liteServer.error: with a non-zero code it must come back as that error value
+	// (code 0 is how a server says "done" to a bare wait; nil or the error value are both accepted for it).
+	for k := 0; k < N(12, 200); k++ {
+		rng := K.Rng("wire-waitseqno", k)
+		seqno, timeout := uint32(rng.Uint64()), uint32(rng.Uint64())
+		if k < 4 {
+			seqno, timeout = []uint32{0, 1, 0x01020304, 0xffffffff}[k], []uint32{0xffffffff, 0x0a0b0c0d, 1, 0}[k]
+		}
+		pre, _ := S.EncodeBoxed(waitPrefix, &rtl.Object{Ctor: waitPrefix.Name, Fields: []any{seqno, timeout}})
+		resp := S.RandomObject(rng, errC, nil)
+		if k%3 == 2 {
+			resp.Fields[0] = uint32(0)
+		}
+		ans, _ := S.EncodeBoxed(errC, resp)
+		e := &expectation{reqWant: pre, answer: ans, observed: make(chan string, 1)}
+		ws.mu.Lock()
+		ws.cur = e
+		ws.mu.Unlock()
+		var err2 error
+		p := mon.Guard(func() { err2 = client.WaitMasterchainSeqno(ctx, seqno, timeout) })
+		K.Eval(fmt.Sprintf("wire-waitseqno/%d", k%8))
+		wit := map[string]any{"method": "WaitMasterchainSeqno", "seqno": seqno, "timeout": timeout, "reference_request": mon.Hex(pre), "answer": valueWitness(resp)}
+		if p != nil {
+			wit["panic"] = p.Value
+			K.Violation("panic@"+p.Site+"/WaitMasterchainSeqno", wit)
+			continue
+		}
+		select {
+		case v := <-e.observed:
+			if v != "" {
+				wit["server_view"] = v
+				K.Violation("request-bytes@WaitMasterchainSeqno", wit)
+				continue
+			}
+		case <-time.After(2 * time.Second):
+			K.Inconclusive("WaitMasterchainSeqno: server saw no query")
+			continue
+		}
+		K.Seen("methods_on_the_wire", "WaitMasterchainSeqno")
+		if err2 != nil && strings.Contains(err2.Error(), "request timeout") {
+			K.Inconclusive("request timed out on loopback")
+			continue
+		}
+		le, ok := err2.(liteclient.LiteServerErrorC)
+		if resp.Fields[0].(uint32) == 0 && err2 == nil {
+			continue
+		}
+		var back *rtl.Object
+		if ok {
+			back, _ = bind.ExtractObject(S, errC, reflect.ValueOf(le))
+		}
+		if !ok || back == nil || rtl.Diff(S, resp, back) != "" {
+			wit["client_error"] = fmt.Sprintf("%T %v", err2, err2)
+			K.Violation("error-answer-not-returned@WaitMasterchainSeqno", wit)
 		}
 	}
 }
@@ -1261,6 +1566,7 @@ func workerMisc(w *mon.Worker) {
 	}
 	bs := buildBindings(false)
 	sectionPrimitives()
+	sectionPrimitiveVectors()
 	sectionRequestDecoder(bs)
 	sectionHandWritten()
 }
@@ -1283,7 +1589,7 @@ func main() {
 	}
 	R = mon.Start("C10", tier)
 	K = R
-	R.Rule = "for every line of lite_api.tl (as parsed by the reference TL model, not by tongo) abstract values are drawn (every subset of the mode bits the line consults x byte-string lengths {0,1,2,3,4,253,254,255,256,1100}, plus free random values, plus lengths around 2^16 / 2^24), placed positionally into the generated Go type found by scanning generated.go, and compared: tl.Marshal bytes == reference bytes; tl.Unmarshal(reference bytes ‖ sentinel) == value, consuming exactly the value; LiteapiRequestDecoder(reference request) names the function and returns the value; each *Client method talks to a reference ADNL server which compares the decrypted query with adnl.message.query{liteServer.query{id ‖ args}} and answers with the reference encoding of a random result (or liteServer.error); tl.Marshal/Unmarshal of plain []byte/string for every length 0..1100; hand-written codecs likewise; the two generators are re-run and their gofmt'ed output compared with the checked-in files. non-trivial = a value that was encoded and compared; distinct = distinct (Go type, constructor, presence pattern, byte-string / vector length classes)"
+	R.Rule = "for every line of lite_api.tl (as parsed by the reference TL model, not by tongo) abstract values are drawn (every subset of the mode bits the line consults x byte-string lengths {0,1,2,3,4,253,254,255,256,1100}, plus free random values, plus lengths around 2^16 / 2^24), placed positionally into the generated Go type found by scanning generated.go, and compared: tl.Marshal bytes == reference bytes; tl.Unmarshal(reference bytes ‖ sentinel) == value, consuming exactly the value; LiteapiRequestDecoder(reference request) names the function and returns the value; each *Client method talks to a reference ADNL server which compares the decrypted query with adnl.message.query{liteServer.query{id ‖ args}} and answers with the reference encoding of a random result (or liteServer.error); tl.Marshal/Unmarshal of plain []byte/string for every length 0..1100; the hand-written requests WaitMasterchainBlock / WaitMasterchainSeqno likewise (incl. liteServer.error answers); per method one answer that is a boxed value of another type (must be refused) and, for a few methods, byte strings of 65535/65536/200000 bytes in the answer or the request (long-form length in the adnl.message.* / liteServer.query envelopes); every value is decoded a second time from a reader that returns 1..5 bytes per Read, and boxed values are offered with a foreign constructor id (must be refused); tl.Marshal/Unmarshal of Go slices of every element kind; hand-written codecs likewise; the two generators are re-run and their gofmt'ed output compared with the checked-in files. non-trivial = a value that was encoded and compared; distinct = distinct (Go type, constructor, presence pattern, byte-string / vector length classes)"
 	R.Assume("reference TL model harness/ref/tl is correct: pinned at start-up by real lite-server answers in ton/testdata, the overlay-id network constants and the byte-string examples of the TL documentation")
 	R.Assume("Go values are populated positionally: the i-th Go field of a generated struct is the i-th schema field whose type is not `true`")
 	R.Assume("the constructor ids written in lite_api.tl are taken as given (their agreement with CRC32 of the official schema lines is not part of the property)")
